@@ -60,6 +60,7 @@ inductive Out where
   | pos (p : Int)
   | unit
   | keyError
+  | ioError       -- an exception of `download_range` (network) propagating out of `read`
   | unmodelled
 deriving Repr, DecidableEq
 
